@@ -21,7 +21,9 @@ from geneticengine.solutions.tree import LocalSynthesisContext, TreeNode
 
 T = TypeVar("T")
 
-MAX_GENE_VALUE = 1024
+# As wide as the genes that mutation writes and as the other genotype representations draw: a weighted choice spans
+# 100000 * the sum of its weights, so genes up to 1024 always took the first option.
+MAX_GENE_VALUE = sys.maxsize
 
 
 def gene_key(ty):
